@@ -1,6 +1,7 @@
 """C13 — expression typing (structural clauses)."""
 from checks.common import Ctx
 from sa.report import Check
+from sa.rules import resolve_rules as RR
 from sa.rules import dispatch as D
 from sa.rules import pipeline as P
 from sa.rules import traversal as T
@@ -36,4 +37,6 @@ def main(tier):
     chk.run("R-DISPATCH", D.closed_chain_rule, r, s, tc, floor=15, control=lambda: dctl)
     chk.run("R-DISPATCH-FM", D.fm_flow_rule, r, s, floor=30, control=lambda: dctl)
     chk.run("R-VALIDATORS", P.validators, r, floor=40)
+    chk.run("R-PATHEND", RR.pathend, cx.repo, floor=1, modules=("compiler/front_end/type_check.py",))
+    chk.run("R-REFKIND", RR.refkind, cx.repo, cx.schema, floor=2, modules=("compiler/front_end/type_check.py",))
     return chk.finish()
